@@ -111,9 +111,24 @@ class Cut:
     """A cut point at a TOP-LEVEL statement of the function (identified by a snippet of its source line): paths arriving
     there must establish `invariants` and stop; one fresh segment starts there from an arbitrary state satisfying them
     (locals re-created from `locals` types, the contract's `modifies` locations havocked, old() = an arbitrary entry state)."""
-    def __init__(self, anchor, invariants=(), locals=None, init=None):
+    def __init__(self, anchor, invariants=(), locals=None, init=None, optional=()):
         self.anchor, self.invariants, self.locals = anchor, list(invariants), dict(locals or {})
         self.init = init          # callable(eng, frame): builds locals / ghost state that a type descriptor cannot express
+        self.optional = set(optional)   # helper locals the code may not have: if the function never assigns one, the cut neither
+                                        # creates it nor states the clauses that mention it (a property clause never mentions one)
+
+    def active(self, fn):
+        """(locals, invariants) restricted to the names the function actually assigns"""
+        assigned = {n.id for n in ast.walk(fn) if isinstance(n, ast.Name) and isinstance(n.ctx, ast.Store)}
+        missing = {n for n in self.optional if n not in assigned}
+        if not missing:
+            return self.locals, self.invariants
+        def mentions(text):
+            try:
+                return any(isinstance(n, ast.Name) and n.id in missing for n in ast.walk(ast.parse(text, mode="eval")))
+            except SyntaxError:
+                return False
+        return ({k: v for k, v in self.locals.items() if k not in missing}, [(n, t) for n, t in self.invariants if not mentions(t)])
 
 
 def _unreachable_ok_lines(self, eng, fn):
@@ -449,7 +464,8 @@ def verify_function(eng, con, label=None, setup=None, extra_checks=None):
                 cur = eng.state.heap.get((obj.oid, field))
                 ty = field_type(eng, obj, field)
                 eng.state.heap[(obj.oid, field)] = havoc_like(eng, cur, loc, ty)
-            for nm, ty in cut.locals.items():
+            cut_locals, cut_invs = cut.active(fn)
+            for nm, ty in cut_locals.items():
                 fr.env[nm] = eng.fresh_of_type(ty, nm)
             if cut.init:
                 cut.init(eng, fr)
@@ -458,7 +474,7 @@ def verify_function(eng, con, label=None, setup=None, extra_checks=None):
                 if self_obj is not None:
                     assume_class_invariants(eng, self_obj)
                     eng.assuming = True
-                for nm, text in cut.invariants:
+                for nm, text in cut_invs:
                     eng.assume(eng.truth(eng.eval_spec(text, dict(fr.env), modname, old=old, old_env=dict(env))))
             finally:
                 eng.assuming = False
@@ -476,7 +492,7 @@ def verify_function(eng, con, label=None, setup=None, extra_checks=None):
                 if st is stop_at:
                     if self_obj is not None and con.check_invariant:
                         check_class_invariants(eng, self_obj, "%s/cut%d" % (label, seg + 1))
-                    for nm, text in con.cuts[seg].invariants:
+                    for nm, text in con.cuts[seg].active(fn)[1]:
                         eng.oblige("%s/cut%d:%s" % (label, seg + 1, nm),
                                    eng.truth(eng.eval_spec(text, dict(fr.env), modname, old=old, old_env=dict(env))), clause=text, kind="cut")
                     eng.exits = getattr(eng, "exits", 0) + 1
